@@ -486,3 +486,58 @@ func C14InvalidUpdateRacing() {
 	}
 	sym.Reach("invalid-racing-done")
 }
+
+// C14StatisticsAndSubscribers: method statistics are switched on (by a third connection) before or after a
+// client subscribes to a property; writes then come from another connection, and from the subscriber's own
+// connection: with or without statistics, every accepted write is announced once to the subscriber — on the
+// subscriber's connection — and never to the writer.
+func C14StatisticsAndSubscribers() {
+	auth := &zzAuth{user: "u", token: "t"}
+	l := newZZListener()
+	srv, err := StandAloneServer(l, auth, PrivateNamespace())
+	sym.Assert(err == nil, "server-started")
+	o := zzPropObject(0)
+	service, err := srv.NewService("props", o.front)
+	sym.Assert(err == nil, "service-registered")
+	sid := service.ServiceID()
+	writer := zzAuthConn(l, 1)
+	sub := zzAuthConn(l, 1)
+	operator := zzAuthConn(l, 1)
+	enable := func() {
+		out := zzRoundTrip(operator, zzFrame(net.Call, sid, 1, 81, 90, []byte{1}))
+		sym.Assert(len(out) == 1 && out[0].Header.Type == net.Reply, "stats-subscribers/enable-stats")
+	}
+	when := sym.Choose("statistics", 3) // never / before the subscription / after it
+	if when == 1 {
+		enable()
+	}
+	out := zzRoundTrip(sub, zzFrame(net.Call, sid, 1, 0, 5, zzRegisterPayload(1, zzPropID, 77)))
+	sym.Assert(len(out) == 1 && out[0].Header.Type == net.Reply, "stats-subscribers/subscribed")
+	if when == 2 {
+		enable()
+	}
+	name := zzValueBytes(value.String("delay"))
+	for i := 0; i < 2; i++ {
+		from := writer
+		if sym.Bool("write-comes-from-the-subscriber") {
+			from = sub
+		}
+		x := sym.I32("new-value")
+		sym.Assume(x >= 0)
+		subMark, wMark := len(sub.sentMessages()), len(writer.sentMessages())
+		out := zzRoundTrip(from, zzFrame(net.Call, sid, 1, 6, uint32(20+i), append(append([]byte{}, name...), zzValueBytes(value.Int(x))...)))
+		sym.Assert(len(out) == 1 && out[0].Header.Type == net.Reply, "stats-subscribers/valid-write-refused")
+		events := 0
+		for _, f := range sub.sentMessages()[subMark:] {
+			if f.Header.Type == net.Event {
+				events++
+				sym.Assert(sym.EqBytes(f.Payload, zzLE32(uint32(x))), "stats-subscribers/event-carries-new-value")
+			}
+		}
+		sym.Assert(events == 1, "stats-subscribers/subscriber-event-count")
+		for _, f := range writer.sentMessages()[wMark:] {
+			sym.Assert(f.Header.Type != net.Event, "stats-subscribers/event-sent-to-a-connection-that-did-not-subscribe")
+		}
+	}
+	sym.Reach("stats-subscribers-done")
+}
